@@ -207,7 +207,7 @@ def main():
                      "kind_free_text": "Rocq/Coq 8.16 theorems over executable Gallina models; models regenerated from the Python AST (translator) and/or tied by exact correspondence (vm_compute vs the implementation)"}],
         "checks": checks,
         "not_applicable": na,
-        "notes": "See DESIGN.md. Genuine defects repaired by fix: commits in /repo are listed in known_findings.jsonl.",
+        "notes": "See DESIGN.md (as built: section 12; trusted base: 12.6 and 12.7). Genuine defects repaired by fix: commits in /repo are listed in known_findings.jsonl.",
     }
     with open(os.path.join(VERIF, "MANIFEST.json"), "w") as f:
         json.dump(m, f, indent=1)
